@@ -40,6 +40,22 @@ func c07Universe(c *Ctx) []*TS {
 		optLeaves = []*TS{tsNum, tsDyn}
 	}
 	u = append(u, typeUniverse(2, TypeOpts{Leaves: optLeaves, Tuples: 1, Attrs: []string{"a", "b"}, MaxObj: 2, Optional: true})...)
+	// ... plus every tuple of width 2 and 3 over the depth-1 optional family (an
+	// annotation in a non-final position, several positions, none)
+	d1opt := typeUniverse(1, TypeOpts{Leaves: []*TS{tsNum}, Tuples: 1, Attrs: []string{"a", "b"}, MaxObj: 2, Optional: true})
+	for _, e1 := range d1opt {
+		for _, e2 := range d1opt {
+			u = append(u, tTuple(e1, e2))
+		}
+	}
+	d1small := []*TS{tsNum, tObj(ato("a", tsNum)), tObj(at("a", tsNum)), tList(tsNum)}
+	for _, e1 := range d1small {
+		for _, e2 := range d1small {
+			for _, e3 := range d1small {
+				u = append(u, tTuple(e1, e2, e3), tList(tTuple(e1, e2, e3)), tObj(at("a", tTuple(e1, e2, e3))))
+			}
+		}
+	}
 	// ... plus normalisation cases
 	nfd, nfcN := "e\u0301", "\u00e9"
 	u = append(u,
@@ -97,89 +113,7 @@ func runC07(c *Ctx) {
 			if t.Depth() > 0 {
 				un.Distinct("T:" + canon[i])
 			}
-			site := "type"
-			shape := canon[i]
-			fail := func(clause, detail string) {
-				un.Violation(site+"."+clause, shape, fmt.Sprintf("%s: type %#v: %s", clause, ty, detail))
-			}
-			guard := func(clause string, f func()) {
-				defer func() {
-					if r := recover(); r != nil {
-						fail(clause, fmt.Sprintf("panic: %v", r))
-					}
-				}()
-				f()
-			}
-			guard("reflexive", func() {
-				if !ty.Equals(ty) || !ty.Equals(built2[i]) || !built2[i].Equals(ty) {
-					fail("reflexive", "type not equal to itself / to an independently built copy")
-				}
-			})
-			guard("hasdynamic", func() {
-				if got := ty.HasDynamicTypes(); got != t.HasDyn() {
-					fail("hasdynamic", fmt.Sprintf("HasDynamicTypes=%v, model says %v", got, t.HasDyn()))
-				}
-			})
-			guard("conform-self", func() {
-				if errs := ty.TestConformance(ty); len(errs) != 0 {
-					fail("conform-self", fmt.Sprintf("type does not conform to itself: %v", errs))
-				}
-				if errs := ty.TestConformance(cty.DynamicPseudoType); len(errs) != 0 {
-					fail("conform-self", fmt.Sprintf("type does not conform to dynamic: %v", errs))
-				}
-			})
-			guard("strip", func() {
-				s1 := ty.WithoutOptionalAttributesDeep()
-				s2 := s1.WithoutOptionalAttributesDeep()
-				m1 := tsOf(s1)
-				if m1.Canon() != canonNO[i] {
-					fail("strip", fmt.Sprintf("stripped type is %#v (%s), expected %s", s1, m1.Canon(), canonNO[i]))
-				}
-				if m1.HasOpt() {
-					fail("strip", fmt.Sprintf("stripped type %#v still has optional annotations", s1))
-				}
-				if !s1.Equals(s2) || tsOf(s2).Canon() != m1.Canon() {
-					fail("strip", fmt.Sprintf("stripping is not idempotent: %#v vs %#v", s1, s2))
-				}
-				if !t.HasOpt() && !s1.Equals(ty) {
-					fail("strip", "stripping changed a type without optional annotations")
-				}
-			})
-			guard("json", func() {
-				b, err := ty.MarshalJSON()
-				if t.HasCaps() {
-					if err == nil {
-						fail("json", "capsule type serialised without error")
-					}
-					return
-				}
-				if err != nil {
-					fail("json", fmt.Sprintf("MarshalJSON failed: %v", err))
-					return
-				}
-				var back cty.Type
-				if err := back.UnmarshalJSON(b); err != nil {
-					fail("json", fmt.Sprintf("UnmarshalJSON(%s) failed: %v", b, err))
-					return
-				}
-				if !back.Equals(ty) || !ty.Equals(back) || tsOf(back).Canon() != canon[i] {
-					fail("json", fmt.Sprintf("round trip through %s gives %#v", b, back))
-				}
-				b2, err := ctyjson.MarshalType(ty)
-				if err != nil || string(b2) != string(b) {
-					fail("json", "json.MarshalType disagrees with Type.MarshalJSON")
-				}
-				back2, err := ctyjson.UnmarshalType(b)
-				if err != nil || !back2.Equals(ty) {
-					fail("json", "json.UnmarshalType round trip not equal")
-				}
-			})
-			// accessor model: tsOf must read back the model
-			guard("accessors", func() {
-				if got := tsOf(ty).Canon(); got != canon[i] {
-					fail("accessors", fmt.Sprintf("accessors describe %s, constructed %s", got, canon[i]))
-				}
-			})
+			c07TypeChecks(un, t, ty, built2[i], canon[i], canonNO[i])
 			if un.WantSample() {
 				un.Sample(map[string]string{"type": ty.GoString(), "model": canon[i]})
 			}
@@ -222,6 +156,7 @@ func runC07(c *Ctx) {
 					un.DistinctH(hash64(bc) ^ (hash64(m.Canon()) * 1099511628211))
 					pairCheck(un, base, m, bt, mt, bc, m.Canon())
 					pairCheck(un, m, base, mt, bt, m.Canon(), bc)
+					c07TypeChecks(un, m, mt, m.Build(), m.Canon(), m.CanonNoOpt())
 				}
 			}
 			// toggling one optional marker / flipping one attr name
@@ -231,9 +166,167 @@ func runC07(c *Ctx) {
 				un.Eval(1)
 				pairCheck(un, base, m, bt, mt, bc, m.Canon())
 				pairCheck(un, m, base, mt, bt, m.Canon(), bc)
+				c07TypeChecks(un, m, mt, m.Build(), m.Canon(), m.CanonNoOpt())
 			}
 		})
 	}
+	c07Aliased(c, u)
+}
+
+// c07Aliased builds types whose constructor arguments share storage (prefixes of one
+// element-type array given to cty.Tuple, one attribute map given to cty.Object and to
+// cty.ObjectWithOptionalAttrs with every optional subset, element types obtained from
+// another type's accessors) and compares every pair with the structural model: sharing
+// read-only storage between types is legitimate use and must be unobservable.
+func c07Aliased(c *Ctx, u []*TS) {
+	for i := range u {
+		t := u[i]
+		if !((t.K == 'T' && len(t.Elems) > 0) || (t.K == 'O' && len(t.Attrs) > 0)) {
+			continue
+		}
+		c.Unit(func(un *U) {
+			var ms []*TS
+			var ts []cty.Type
+			switch t.K {
+			case 'T':
+				arr := make([]cty.Type, len(t.Elems))
+				for k, e := range t.Elems {
+					arr[k] = e.Build()
+				}
+				for k := 0; k <= len(arr); k++ {
+					ms = append(ms, tTuple(t.Elems[:k]...))
+					ts = append(ts, cty.Tuple(arr[:k]))
+				}
+				// the same prefixes taken from the accessor of the full type, as stdlib slice() does
+				full := ts[len(ts)-1]
+				for k := 0; k < len(arr); k++ {
+					ms = append(ms, tTuple(t.Elems[:k]...))
+					ts = append(ts, cty.Tuple(full.TupleElementTypes()[:k]))
+				}
+			case 'O':
+				m := make(map[string]cty.Type, len(t.Attrs))
+				for _, a := range t.Attrs {
+					m[a.Name] = a.T.Build()
+				}
+				n := len(t.Attrs)
+				for mask := 0; mask < 1<<n; mask++ {
+					var as []TAttr
+					var opt []string
+					for k, a := range t.Attrs {
+						a.Opt = mask&(1<<k) != 0
+						as = append(as, a)
+						if a.Opt {
+							opt = append(opt, a.Name)
+						}
+					}
+					ms = append(ms, tObj(as...))
+					if mask == 0 {
+						ts = append(ts, cty.Object(m))
+					} else {
+						ts = append(ts, cty.ObjectWithOptionalAttrs(m, opt))
+					}
+				}
+				// a type rebuilt from another type's attribute-type accessor
+				ms = append(ms, ms[0])
+				ts = append(ts, cty.Object(ts[len(ts)-1].AttributeTypes()))
+			}
+			for a := range ts {
+				for b := range ts {
+					un.Eval(1)
+					un.DistinctH(hash64("alias:"+ms[a].Canon()) ^ (hash64(ms[b].Canon()) * 1099511628211) ^ uint64(a*64+b))
+					pairCheck(un, ms[a], ms[b], ts[a], ts[b], ms[a].Canon(), ms[b].Canon())
+				}
+				c07TypeChecks(un, ms[a], ts[a], ms[a].Build(), ms[a].Canon(), ms[a].CanonNoOpt())
+			}
+		})
+	}
+}
+
+// c07TypeChecks runs the single-type clauses on one modelled type t built twice (ty, ty2).
+func c07TypeChecks(un *U, t *TS, ty, ty2 cty.Type, cn, cnNO string) {
+	site := "type"
+	shape := cn
+	fail := func(clause, detail string) {
+		un.Violation(site+"."+clause, shape, fmt.Sprintf("%s: type %#v: %s", clause, ty, detail))
+	}
+	guard := func(clause string, f func()) {
+		defer func() {
+			if r := recover(); r != nil {
+				fail(clause, fmt.Sprintf("panic: %v", r))
+			}
+		}()
+		f()
+	}
+	guard("reflexive", func() {
+		if !ty.Equals(ty) || !ty.Equals(ty2) || !ty2.Equals(ty) {
+			fail("reflexive", "type not equal to itself / to an independently built copy")
+		}
+	})
+	guard("hasdynamic", func() {
+		if got := ty.HasDynamicTypes(); got != t.HasDyn() {
+			fail("hasdynamic", fmt.Sprintf("HasDynamicTypes=%v, model says %v", got, t.HasDyn()))
+		}
+	})
+	guard("conform-self", func() {
+		if errs := ty.TestConformance(ty); len(errs) != 0 {
+			fail("conform-self", fmt.Sprintf("type does not conform to itself: %v", errs))
+		}
+		if errs := ty.TestConformance(cty.DynamicPseudoType); len(errs) != 0 {
+			fail("conform-self", fmt.Sprintf("type does not conform to dynamic: %v", errs))
+		}
+	})
+	guard("strip", func() {
+		s1 := ty.WithoutOptionalAttributesDeep()
+		s2 := s1.WithoutOptionalAttributesDeep()
+		m1 := tsOf(s1)
+		if m1.Canon() != cnNO {
+			fail("strip", fmt.Sprintf("stripped type is %#v (%s), expected %s", s1, m1.Canon(), cnNO))
+		}
+		if m1.HasOpt() {
+			fail("strip", fmt.Sprintf("stripped type %#v still has optional annotations", s1))
+		}
+		if !s1.Equals(s2) || tsOf(s2).Canon() != m1.Canon() {
+			fail("strip", fmt.Sprintf("stripping is not idempotent: %#v vs %#v", s1, s2))
+		}
+		if !t.HasOpt() && !s1.Equals(ty) {
+			fail("strip", "stripping changed a type without optional annotations")
+		}
+	})
+	guard("json", func() {
+		b, err := ty.MarshalJSON()
+		if t.HasCaps() {
+			if err == nil {
+				fail("json", "capsule type serialised without error")
+			}
+			return
+		}
+		if err != nil {
+			fail("json", fmt.Sprintf("MarshalJSON failed: %v", err))
+			return
+		}
+		var back cty.Type
+		if err := back.UnmarshalJSON(b); err != nil {
+			fail("json", fmt.Sprintf("UnmarshalJSON(%s) failed: %v", b, err))
+			return
+		}
+		if !back.Equals(ty) || !ty.Equals(back) || tsOf(back).Canon() != cn {
+			fail("json", fmt.Sprintf("round trip through %s gives %#v", b, back))
+		}
+		b2, err := ctyjson.MarshalType(ty)
+		if err != nil || string(b2) != string(b) {
+			fail("json", "json.MarshalType disagrees with Type.MarshalJSON")
+		}
+		back2, err := ctyjson.UnmarshalType(b)
+		if err != nil || !back2.Equals(ty) {
+			fail("json", "json.UnmarshalType round trip not equal")
+		}
+	})
+	// accessor model: tsOf must read back the model
+	guard("accessors", func() {
+		if got := tsOf(ty).Canon(); got != cn {
+			fail("accessors", fmt.Sprintf("accessors describe %s, constructed %s", got, cn))
+		}
+	})
 }
 
 func pairCheck(un *U, ta, tb *TS, a, b cty.Type, ca, cb string) {
